@@ -198,3 +198,33 @@ TWINS = [
     ("docstring-edit", SCAN, r"Prepends the initial accumulator value", "Prepends the first accumulator value"),
     ("comment-shift", DIST, r"(class Distribution\(Generic\[R\], GenerativeFunction\[R\]\):)", "# moved comment\n\n\n\\1"),
 ]
+
+
+# (id, properties whose check must fire, refactoring twin applied first, file, regex, replacement): defects planted in the refactored spelling
+REFACTORED_MUTANTS = [
+    ("tag-helper-keeps-diffs", ["C08", "C09", "C15", "C21"], "C09b-r1", "_src/core/compiler/interpreters/incremental.py",
+     r"primal_tree: R = Diff\.tree_primal\(tree\)\n        tangent_tree: R = jtu\.tree_map\(lambda _: tangent", "primal_tree: R = tree\n        tangent_tree: R = jtu.tree_map(lambda _: tangent"),
+    ("tag-helper-inverted-choice", ["C08", "C09", "C15", "C21"], "C09b-r1", "_src/core/compiler/interpreters/incremental.py",
+     r"out_tangent = NoChange if Diff", "out_tangent = UnknownChange if Diff"),
+    ("staged-seed-unknown-consts", ["C09", "C15"], "C09b-r2", "_src/core/compiler/interpreters/incremental.py",
+     r"jaxpr\.constvars, Diff\.no_change\(consts\)", "jaxpr.constvars, Diff.unknown_change(consts)"),
+    ("single-pass-plain-leaf-unknown", ["C08", "C09", "C15", "C21"], "C09b-r4", "_src/core/compiler/interpreters/incremental.py",
+     r"case _:\n                    return NoChange", "case _:\n                    return UnknownChange"),
+    ("extend-index-loop-forward", ["C18", "C33"], "C18b-r5", "_src/core/generative/choice_map.py", r"addrs\[depth - k\]", "addrs[k - 1]"),
+    ("builder-kinds-swapped", ["C18", "C33"], "C18b-r5", "_src/core/generative/choice_map.py",
+     r"Selection\.all\(\) if path else Selection\.leaf\(\)", "Selection.leaf() if path else Selection.all()"),
+    ("traceparts-fields-swapped", ["C01", "C04"], "C22b-r4", "_src/generative_functions/static.py",
+     r"return TraceParts\(args, retval, traces\)\n\n    return wrapper\n\n\n#", "return TraceParts(retval, args, traces)\n\n    return wrapper\n\n\n#"),
+    ("generator-wrong-accessor", ["C01", "C22", "C34"], "C22b-r5", "_src/generative_functions/static.py",
+     r"yield address, subtrace\.get_choices\(\)", "yield address, subtrace.get_sample()"),
+    ("invocation-never-unpacked", ["C24"], "C24b-r2", "_src/generative_functions/distributions/distribution.py", r"return _Invocation\(\*args\)", "return _Invocation(args, kwargs)"),
+    ("retained-first-slot", ["C26"], "C26b-r2", "_src/inference/smc.py", r"particle_collection\[num_rejected\]", "particle_collection[0]"),
+    ("delegation-drops-retarget", ["C30"], "C26b-r3", "_src/inference/smc.py",
+     r"return ChangeTarget\(self, target\)\.log_marginal_likelihood_estimate\(key\)", "return self.log_marginal_likelihood_estimate(key)"),
+    ("batched-reweight-sign", ["C25", "C26"], "C26b-r5", "_src/inference/smc.py", r"new_scores - old_scores \+", "new_scores + old_scores +"),
+    ("namedtuple-loop-jump-off-by-one", ["C31"], "C31b-r4", "_src/core/compiler/interpreters/time_travel.py",
+     r"jump_points\[recorded\.debug_tag\] = len\(sequence\) - 1", "jump_points[recorded.debug_tag] = len(sequence)"),
+    ("factory-impl-split-off-by-one", ["C36"], "C36b-r4", "_src/core/compiler/initial_style_primitive.py",
+     r"args\[:num_consts\], args\[num_consts:\]", "args[:num_consts], args[num_consts + 1:]"),
+    ("reverse-scan-forward", ["C37"], "C37b-r3", "_src/generative_functions/distributions/custom/discrete_hmm.py", r"reverse=True,", "reverse=False,"),
+]
